@@ -10,6 +10,7 @@ let () =
   | [| _; "queue" |] -> Drv_queue.run ()
   | [| _; "flags" |] -> Drv_flags.run ()
   | [| _; "gvtphase"; _ |] -> Drv_gvt.run ()
+  | [| _; "gvtnode"; _ |] -> Drv_gvtnode.run ()
   | [| _; "alloc"; _; _ |] -> Drv_alloc.run ()
   | [| _; "worker"; _; _ |] -> Drv_worker.run ()
   | a when Array.length a >= 6 && a.(1) = "seq" -> Drv_seq.run ()
